@@ -6,7 +6,7 @@ from props import pipefmt, pipecheck, gen_programs
 
 PID = "C02"
 MANIFEST_ENTRY = {
- "level_claimed": {"category": "proof", "text": "Theorems in coq/Properties/C02.v: (a) the priority map, definitions and associativity classes the translator extracts from the current parser.rs (coq/Gen/Defs.v, regenerated every run) order every pair of definitions exactly as the hand-pinned reference table Spec/RefTable.v does and classify every token type the same way (finite, vm_compute); (b) for every expression with at most three operators (all binary operators incl. conditional and apply forms, prefix, suffix, comma, the implicit space list) around atomic operands, with and without whitespace around binary operators, and for both bracketings of every ordered operator pair, the transliterated parser returns exactly the tree that an independent precedence-climbing reference parser over the pinned table builds (vm_compute enumeration over >100,000 expressions, bound = the property's own quantifier, in the theorem name). (c) UNBOUNDED, by induction (no enumeration): C02_full proves the full statement C02_full_statement -- for EVERY token list, whenever the independent precedence-climbing reference parser over the pinned table is defined on it, parse accepts and returns exactly the reference tree (token positions included); no bound on length, number of operators or bracket depth. The reference is defined exactly on the operator expressions of C02_operator_expressions (operand = prefix operators, then a value or a bracketed expression -- round brackets ( ) or nested-expression brackets { }, properly matched, nested to any depth; the tree records the kind -- then suffix operators; operands joined by any of the 38 binary operator tokens -- no operator excluded: arithmetic, comparison, logic, right-to-left pair, comma, conditional forms, access, apply forms -- or, across whitespace, by the implicit space list; whitespace allowed anywhere, also leading/trailing), so: tighter nests below looser, equal rank groups left-to-right except pair and the prefix operators, brackets override both, the implicit list sits at its table position and is not created around a spaced binary operator; C02_binary_chains is the special case v0 o1 v1 ... on vn. Proof: the parser state is a stack of right-spine frames (Proofs/C02/Invariant.v, Steps.v, Unfold.v, StepsGen.v, OpExpr.v: the parent-chain walk of parse_token pops exactly the frames the table says and stops at the innermost open bracket, within its fuel and count guard), find_root / validate_tree / tree_of succeed on the resulting tree (Denote.v, Validate.v), spine insertion equals precedence climbing (Spine.v), and a successful climb only consumes well-formed expressions, with trimmed whitespace shifting token indices (Full.v). Outside the unbounded theorem (reference undefined there): side effects [ ], separators (also inside { }), annotations, empty or mismatched brackets -- for these the <=3-operator enumeration (b) and the differential runs are the evidence. The parser model is tied to parser.rs by node-for-node comparison on the same expressions and on generated deeper programs on every run, and the real parse trees are compared with the reference tree directly.", "design_ref": "DESIGN.md section 8 C02"},
+ "level_claimed": {"category": "proof", "text": "Theorems in coq/Properties/C02.v: (a) the priority map, definitions and associativity classes the translator extracts from the current parser.rs (coq/Gen/Defs.v, regenerated every run) order every pair of definitions exactly as the hand-pinned reference table Spec/RefTable.v does and classify every token type the same way (finite, vm_compute); (b) for every expression with at most three operators (all binary operators incl. conditional and apply forms, prefix, suffix, comma, the implicit space list) around atomic operands, with and without whitespace around binary operators, and for both bracketings of every ordered operator pair, the transliterated parser returns exactly the tree that an independent precedence-climbing reference parser over the pinned table builds (vm_compute enumeration over >100,000 expressions, bound = the property's own quantifier, in the theorem name). (c) UNBOUNDED, by induction (no enumeration): C02_full proves the full statement C02_full_statement -- for EVERY token list, whenever the independent precedence-climbing reference parser over the pinned table is defined on it, parse accepts and returns exactly the reference tree (token positions included); no bound on length, number of operators or bracket depth. The reference is defined exactly on the operator expressions of C02_operator_expressions (operand = prefix operators, then a value or a bracketed expression -- round brackets ( ) or nested-expression brackets { }, properly matched, nested to any depth; the tree records the kind -- then suffix operators; the expression separator `;` is the loosest binary operator at top level and directly inside { } (not inside round brackets, not leading / trailing / doubled); operands joined by any of the 38 binary operator tokens -- no operator excluded: arithmetic, comparison, logic, right-to-left pair, comma, conditional forms, access, apply forms -- or, across whitespace, by the implicit space list; whitespace allowed anywhere, also leading/trailing), so: tighter nests below looser, equal rank groups left-to-right except pair and the prefix operators, brackets override both, the implicit list sits at its table position and is not created around a spaced binary operator; C02_binary_chains is the special case v0 o1 v1 ... on vn. Proof: the parser state is a stack of right-spine frames (Proofs/C02/Invariant.v, Steps.v, Unfold.v, StepsGen.v, OpExpr.v: the parent-chain walk of parse_token pops exactly the frames the table says and stops at the innermost open bracket, within its fuel and count guard), find_root / validate_tree / tree_of succeed on the resulting tree (Denote.v, Validate.v), spine insertion equals precedence climbing (Spine.v), and a successful climb only consumes well-formed expressions, with trimmed whitespace shifting token indices (Full.v). Outside the unbounded theorem (reference undefined there): side effects [ ], blank-line separators, `;` inside round brackets or leading / trailing / doubled, annotations, empty or mismatched brackets -- for these the <=3-operator enumeration (b) and the differential runs are the evidence. The parser model is tied to parser.rs by node-for-node comparison on the same expressions and on generated deeper programs on every run, and the real parse trees are compared with the reference tree directly.", "design_ref": "DESIGN.md section 8 C02"},
  "level_note": "Trusted: Coq kernel (vm_compute), translator tools/sync/defs.py, the pinned table Spec/RefTable.v (taken from the code and the property text; docs/src/precedence.md differs in three documented places), extraction, harness. No axioms.",
  "technique": "Coq proof (vm_compute finite enumeration against a pinned reference Pratt parser) + regenerated tables + differential correspondence"}
 TRUSTED = vplib.BASE_TRUSTED + ["coq/Spec/RefTable.v: the pinned operator table (by hand)", "tools/sync/defs.py"]
@@ -82,7 +82,7 @@ def impl_tree(parsed, defs, secs, off=0):
                 a = go(n["right"], depth + 1)
                 return None if (a is None or n["left"] is not None) else "N%d(%s)" % (tok, a)
             return None
-        if sec in ("BinaryLeftToRight", "BinaryRightToLeft", "OptionalBinaryLeftToRight"):
+        if sec in ("BinaryLeftToRight", "BinaryRightToLeft", "OptionalBinaryLeftToRight", "Subexpression"):
             l, r = go(n["left"], depth + 1), go(n["right"], depth + 1)
             return None if (l is None or r is None) else "B%d.%d(%s,%s)" % (d, tok, l, r)
         return None
